@@ -1,6 +1,7 @@
 import AkVerif.Model.Common
 /-!
-Model of the multi-command part of `/repo/ak/cli_tools.py` (C19).
+Model of `/repo/ak/cli_tools.py` (C19), first part: declarations and option tables
+(the scan of the arguments and `parse_args` are in `Model/CliArgs.lean`).
 
 * `parseDecl`    — the command string `"!name:parent1, parent2"` (split at the first `:`, one leading
                    `!`, parents split at `,`, stripped, empty pieces dropped, collected in a set).
@@ -11,13 +12,7 @@ Model of the multi-command part of `/repo/ak/cli_tools.py` (C19).
 * `addOption`    — `ArgParser.add_argument` (target `none`: every parser, no propagation) and
                    `get_cmd_parser(p).add_argument` (dependents of `p`, then `p`; one level only).
                    `argparse`'s conflict test on option strings is the only thing that can fail.
-* `parseArgs`    — `ArgParser.parse_args`: default command insertion, the top-level parser
-                   (`-h`, choice of the sub-parser among the *public* commands), the scan of one
-                   sub-parser over its option table, `no_color` post-processing.
 
-`argparse` inside one parser is modelled for the token language the harness generates (exact
-option strings, `--opt=value`, words); abbreviations, `-xyz` clusters, `--`, negative numbers are
-`Tok.ood` ("out of domain") and make `parseArgs` return `Fail.ood`, never an ordinary answer.
 The standard options and the first-argument test come from the source (`Cfg`, filled by `Gen.C19`).
 -/
 namespace CliGraph
@@ -32,6 +27,11 @@ structure Decl where
   parents : List Name
   deriving DecidableEq, Repr
 
+/-- `nargs` of a positional: absent (exactly one), `'?'`, `'*'`, `'+'` -/
+inductive PosN where
+  | one | opt | star | plus
+  deriving DecidableEq, Repr
+
 /-- what `add_argument` creates -/
 inductive Kind where
   | flag                                             -- action='store_true'
@@ -39,8 +39,12 @@ inductive Kind where
   | count                                            -- action='count', default 0
   | optChoice (choices : List Name) (dflt : Name)    -- nargs='?', choices, const None
   | help                                             -- argparse's -h/--help
-  | pos                                              -- positional, nargs='*'
+  | pos (n : PosN)                                   -- positional
   deriving DecidableEq, Repr
+
+def Kind.isPos : Kind → Bool
+  | .pos _ => true
+  | _ => false
 
 structure OptSpec where
   strings : List Name        -- option strings; for a positional: `[dest]`
@@ -58,7 +62,8 @@ structure Parser where
 
 /-- what is read from the source by the translator -/
 structure Cfg where
-  std : List OptSpec         -- actions every command parser starts with (help + `_mk_std_args`)
+  std : List OptSpec         -- actions every parser starts with (help + `_mk_std_args`)
+  stdNoLog : List OptSpec    -- the same when the ArgParser is built with `_no_log=True`
   helpFirst : List Name      -- the literal `['-h', '--help']` of `parse_args`
   allParsers : Bool          -- first argument is compared with all parser names (`command_parsers`),
                              -- `false`: with the public command names only
@@ -146,15 +151,17 @@ def chooseDefault (dflt : Option Name) (ps : List Parser) : Option Name :=
   | some d => some d
   | none => (publicNames ps).head?
 
-def build (cfg : Cfg) (dflt : Option Name) (ds : List Decl) : Except Err St :=
+def Cfg.stdOf (cfg : Cfg) (noLog : Bool) : List OptSpec := if noLog then cfg.stdNoLog else cfg.std
+
+def build (cfg : Cfg) (noLog : Bool) (dflt : Option Name) (ds : List Decl) : Except Err St :=
   if ds = [] then .error .assertion
-  else match declareAll cfg.std [] ds with
+  else match declareAll (cfg.stdOf noLog) [] ds with
     | .error e => .error e
     | .ok ps => .ok { parsers := ps, default := chooseDefault dflt ps }
 
 /-! ### options -/
 
-def OptSpec.isOpt (o : OptSpec) : Bool := o.kind != .pos
+def OptSpec.isOpt (o : OptSpec) : Bool := !o.kind.isPos
 
 /-- the option strings of a parser (`_option_string_actions` keys) -/
 def optStrings (tbl : List OptSpec) : List Name :=
@@ -201,285 +208,5 @@ def addAll : St → List (Option Name × OptSpec) → Except Fail St
     match addOption st a.1 a.2 with
     | .error e => .error e
     | .ok st' => addAll st' as
-
-/-! ### one parser scanning its arguments -/
-
-inductive Val where
-  | bool (b : Bool)
-  | none
-  | str (s : Name)
-  | nat (n : Nat)
-  | list (l : List Name)
-  deriving DecidableEq, Repr
-
-abbrev Ns := List (Name × Val)
-
-def Ns.get (ns : Ns) (k : Name) : Option Val := (ns.find? (fun p => p.1 == k)).map (·.2)
-
-def Ns.set (ns : Ns) (k : Name) (v : Val) : Ns :=
-  if ns.any (fun p => p.1 == k) then ns.map (fun p => if p.1 == k then (k, v) else p)
-  else ns ++ [(k, v)]
-
-def Ns.erase (ns : Ns) (k : Name) : Ns := ns.filter (fun p => p.1 != k)
-
-/-- argparse's dest: first `--long` string without the dashes, else the first string without its
-dash; `-` inside becomes `_`. A positional's dest is its name. -/
-def destOf (o : OptSpec) : Name :=
-  if o.kind = .pos then
-    match o.strings with
-    | s :: _ => s
-    | [] => []
-  else
-    let longs := o.strings.filter (fun s => s.take 2 == ['-', '-'])
-    let raw := match longs with
-      | s :: _ => s.drop 2
-      | [] => match o.strings with
-        | s :: _ => s.drop 1
-        | [] => []
-    raw.map (fun c => if c = '-' then '_' else c)
-
-def defaultOf (o : OptSpec) : Option Val :=
-  match o.kind with
-  | .flag => some (.bool false)
-  | .value => some .none
-  | .count => some (.nat 0)
-  | .optChoice _ d => some (.str d)
-  | .help => Option.none
-  | .pos => some .none
-
-/-- `parse_known_args`: defaults of all actions, first action of a dest wins -/
-def defaults : List OptSpec → Ns → Ns
-  | [], ns => ns
-  | o :: os, ns =>
-    match defaultOf o with
-    | Option.none => defaults os ns
-    | some v => defaults os (if (ns.get (destOf o)).isSome then ns else ns ++ [(destOf o, v)])
-
-inductive Tok where
-  | word
-  | opt (spec : OptSpec) (explicit : Option Name)
-  | unknown
-  | ood
-  deriving Repr
-
-def findOpt (tbl : List OptSpec) (s : Name) : Option OptSpec :=
-  tbl.find? (fun o => o.isOpt && o.strings.contains s)
-
-/-- some option string of the parser starts with `nm` (argparse would try an abbreviation) -/
-def prefixClash (tbl : List OptSpec) (nm : Name) : Bool :=
-  (optStrings tbl).any (fun x => nm.isPrefixOf x)
-
-/-- `_parse_optional` restricted to the modelled token language -/
-def classify (tbl : List OptSpec) (t : Name) : Tok :=
-  match t with
-  | [] => .word
-  | c :: r =>
-    if c ≠ '-' then .word
-    else match findOpt tbl t with
-      | some o => .opt o none
-      | none =>
-        match r with
-        | [] => .word                                    -- a lone "-"
-        | c2 :: r2 =>
-          if c2 = '-' then
-            if r2 = [] then .ood                         -- "--"
-            else
-              let nm := t.takeWhile (· ≠ '=')
-              match t.dropWhile (· ≠ '=') with
-              | [] => if prefixClash tbl nm then .ood else .unknown
-              | _ :: ex =>
-                match findOpt tbl nm with
-                | some o => .opt o (some ex)
-                | none => if prefixClash tbl nm then .ood else .unknown
-          else
-            if (findOpt tbl ['-', c2]).isSome || prefixClash tbl t || c2.isDigit || t.contains '=' then .ood
-            else .unknown
-
-inductive Run where
-  | idle
-  | opened (ws : List Name)
-  | done
-  deriving Repr
-
-structure PS where
-  ns : Ns
-  seen : List Name       -- first strings of the mutually exclusive actions already taken
-  run : Run
-  extras : Bool
-  deriving Repr
-
-def posDests (tbl : List OptSpec) : List Name := (tbl.filter (fun o => !o.isOpt)).map destOf
-
-/-- `consume_positionals`: the first `*` positional takes the whole run, the others `[]` -/
-def assignPos : List Name → List Name → Ns → Ns
-  | [], _, ns => ns
-  | d :: ds, ws, ns => assignPos ds [] (ns.set d (.list ws))
-
-def closeRun (tbl : List OptSpec) (ps : PS) : PS :=
-  match ps.run with
-  | .opened ws => { ps with run := .done, ns := assignPos (posDests tbl) ws ps.ns }
-  | _ => ps
-
-def addWord (tbl : List OptSpec) (ps : PS) (w : Name) : PS :=
-  match ps.run with
-  | .idle => if (posDests tbl).isEmpty then { ps with extras := true } else { ps with run := .opened [w] }
-  | .opened ws => { ps with run := .opened (ws ++ [w]) }
-  | .done => { ps with extras := true }
-
-def finish (tbl : List OptSpec) (ps : PS) : PS :=
-  match ps.run with
-  | .idle => { ps with run := .done, ns := assignPos (posDests tbl) [] ps.ns }
-  | .opened _ => closeRun tbl ps
-  | .done => ps
-
-def keyOf (o : OptSpec) : Name :=
-  match o.strings with
-  | s :: _ => s
-  | [] => []
-
-/-- `take_action`'s mutual exclusion test (every use counts as non-default, see the harness) -/
-def mutexOk (o : OptSpec) (ps : PS) : Option PS :=
-  if o.mutex then
-    if ps.seen.any (fun k => k != keyOf o) then Option.none
-    else some { ps with seen := keyOf o :: ps.seen }
-  else some ps
-
-def setv (o : OptSpec) (v : Val) (ps : PS) : PS := { ps with ns := ps.ns.set (destOf o) v }
-
-def runP (tbl : List OptSpec) : List Name → PS → Except Fail PS
-  | [], ps => .ok (finish tbl ps)
-  | t :: rest, ps =>
-    match classify tbl t with
-    | .ood => .error .ood
-    | .word => runP tbl rest (addWord tbl ps t)
-    | .unknown => runP tbl rest { closeRun tbl ps with extras := true }
-    | .opt o ex =>
-      let ps := closeRun tbl ps
-      match o.kind with
-      | .pos => .error .ood
-      | .help =>
-        match ex with
-        | some _ => .error (.exit 2)
-        | none => .error (.exit 0)
-      | .flag =>
-        match ex with
-        | some _ => .error (.exit 2)
-        | none =>
-          match mutexOk o ps with
-          | none => .error (.exit 2)
-          | some ps => runP tbl rest (setv o (.bool true) ps)
-      | .count =>
-        match ex with
-        | some _ => .error (.exit 2)
-        | none =>
-          match mutexOk o ps with
-          | none => .error (.exit 2)
-          | some ps =>
-            match ps.ns.get (destOf o) with
-            | some (.nat n) => runP tbl rest (setv o (.nat (n + 1)) ps)
-            | some .none => runP tbl rest (setv o (.nat 1) ps)
-            | Option.none => runP tbl rest (setv o (.nat 1) ps)
-            | _ => .error (.exc .typeError)
-      | .value =>
-        match ex with
-        | some v =>
-          match mutexOk o ps with
-          | none => .error (.exit 2)
-          | some ps => runP tbl rest (setv o (.str v) ps)
-        | none =>
-          match rest with
-          | [] => .error (.exit 2)
-          | w :: rest' =>
-            match classify tbl w with
-            | .ood => .error .ood
-            | .word =>
-              match mutexOk o ps with
-              | none => .error (.exit 2)
-              | some ps => runP tbl rest' (setv o (.str w) ps)
-            | _ => .error (.exit 2)
-      | .optChoice choices _ =>
-        match ex with
-        | some v =>
-          if choices.contains v then
-            match mutexOk o ps with
-            | none => .error (.exit 2)
-            | some ps => runP tbl rest (setv o (.str v) ps)
-          else .error (.exit 2)
-        | none =>
-          match rest with
-          | [] =>
-            match mutexOk o ps with
-            | none => .error (.exit 2)
-            | some ps => runP tbl [] (setv o .none ps)
-          | w :: rest' =>
-            match classify tbl w with
-            | .ood => .error .ood
-            | .word =>
-              if choices.contains w then
-                match mutexOk o ps with
-                | none => .error (.exit 2)
-                | some ps => runP tbl rest' (setv o (.str w) ps)
-              else .error (.exit 2)
-            | _ =>
-              match mutexOk o ps with
-              | none => .error (.exit 2)
-              | some ps => runP tbl (w :: rest') (setv o .none ps)
-
-/-- one sub-parser: `parse_known_args` followed by the top-level "unrecognized arguments" error -/
-def runParser (q : Parser) (args : List Name) : Except Fail Ns :=
-  match runP q.opts args { ns := defaults q.opts [], seen := [], run := .idle, extras := false } with
-  | .error e => .error e
-  | .ok ps => if ps.extras then .error (.exit 2) else .ok ps.ns
-
-/-! ### `ArgParser.parse_args` -/
-
-def truthy : Val → Bool
-  | .bool b => b
-  | .none => false
-  | .str s => !s.isEmpty
-  | .nat n => n != 0
-  | .list l => !l.isEmpty
-
-def noColor : Name := ['n', 'o', '_', 'c', 'o', 'l', 'o', 'r']
-def color : Name := ['c', 'o', 'l', 'o', 'r']
-def command : Name := ['c', 'o', 'm', 'm', 'a', 'n', 'd']
-
-/-- `if args.no_color: args.color = False` / `del args.no_color` -/
-def post (ns : Ns) : Except Fail Ns :=
-  match ns.get noColor with
-  | Option.none => .error (.exc .attributeError)
-  | some v => .ok ((if truthy v then ns.set color (.bool false) else ns).erase noColor)
-
-def firstArgNames (cfg : Cfg) (st : St) : List Name :=
-  if cfg.allParsers then names st.parsers else publicNames st.parsers
-
-/-- the "black magic": insert the default command unless the first argument is a help option or a
-known name. `none` stands for Python's `None` (no public command, no explicit default). -/
-def withDefault (cfg : Cfg) (st : St) (argv : List Name) : List (Option Name) :=
-  let keep := match argv with
-    | [] => false
-    | a :: _ => cfg.helpFirst.contains a || (firstArgNames cfg st).contains a
-  if keep then argv.map some else st.default :: argv.map some
-
-def mergeNs (base : Ns) : Ns → Ns
-  | [] => base
-  | (k, v) :: r => mergeNs (base.set k v) r
-
-/-- the top-level parser: `-h`/`--help`, then the sub-parser chosen by the first argument -/
-def dispatch (st : St) (argv : List (Option Name)) : Except Fail Ns :=
-  match argv with
-  | [] => .error (.exit 2)                     -- unreachable after `withDefault`: command required
-  | Option.none :: _ => .error (.exit 2)       -- invalid choice: None
-  | some a :: rest =>
-    if a = ['-', 'h'] ∨ a = ['-', '-', 'h', 'e', 'l', 'p'] then .error (.exit 0)
-    else match findParser (st.parsers.filter (fun q => !q.internal)) a with
-      | Option.none => .error (.exit 2)        -- invalid choice
-      | some q =>
-        match runParser q (rest.filterMap id) with
-        | .error e => .error e
-        | .ok sub => post (mergeNs [(command, .str a)] sub)
-
-def parseArgs (cfg : Cfg) (st : St) (argv : List Name) : Except Fail Ns :=
-  dispatch st (withDefault cfg st argv)
 
 end CliGraph
